@@ -103,7 +103,11 @@ def main():
                 rec["result"] = dump(res)
             else:
                 kw = {}
-                if args:
+                if args == "req":
+                    flt = getattr(import_pkg(P["package"] + ".input_types"), "Flt")
+                    col = getattr(import_pkg(P["package"] + ".enums"), "Color")
+                    kw = {"c": col.RED, "f": flt(q="abc"), "w": "2020-01-02"}
+                elif args:
                     flt = getattr(import_pkg(P["package"] + ".input_types"), "Flt")
                     kw = {"id": "x1", "flt": flt(q="abc")}
                 res = loop.run_until_complete(meth(**kw))
